@@ -21,4 +21,34 @@ func NewByteCountReader(r io.Reader) (b *ByteCountReader)
 func (r *ByteCountReader) BytesRead() (n int)
   trusted
   pure
+
+// ---- GZipCompressReader (C03: "bit-exact once the Content-Encoding is undone" for bodies the gateway itself
+// compresses: Proxy compression, ResponseAdaptor / RequestAdaptor compress: gzip) ----
+// total = the bytes the wrapped reader held when it was wrapped. The compressed stream ends (err == io.EOF)
+// only after every one of them was written into the gzip writer and the writer was closed.
+ghost field GZipCompressReader.total int
+pred gzWF(r *GZipCompressReader) := r != nil && r.gw != nil && r.buff != nil && r.r != nil && gzFed[ref(r.gw)] + rdRem[ifaceVal(r.r)] == r.total && (r.err == io.EOF ==> gzClosed[ref(r.gw)] && rdRem[ifaceVal(r.r)] == 0)
+
+func NewGZipCompressReader(r io.Reader) (z *GZipCompressReader)
+  flag allocates
+  requires r != nil
+  modifies gzFed, gzClosed
+  ensures z != nil && fresh(z) && z.r == r && z.err == nil
+  ensures nothing-compressed-yet: z.gw != nil && z.buff != nil && gzFed[ref(z.gw)] == 0 && !gzClosed[ref(z.gw)]
+  ghost at return: z.total := rdRem[ifaceVal(r)]
+
+func (r *GZipCompressReader) pull()
+  requires gzWF(r) && r.err == nil
+  modifies r.err, rdRem, gzFed, gzClosed
+  ensures every-source-byte-goes-through-the-compressor: gzFed[ref(r.gw)] + rdRem[ifaceVal(r.r)] == r.total
+  ensures the-stream-ends-only-after-the-gzip-writer-is-closed: r.err == io.EOF ==> gzClosed[ref(r.gw)] && rdRem[ifaceVal(r.r)] == 0 && gzFed[ref(r.gw)] == r.total
+  ensures a-window-is-consumed-or-the-stream-ends: r.err == nil ==> gzFed[ref(r.gw)] == old(gzFed[ref(r.gw)]) + bodyFlushSize
+
+func (r *GZipCompressReader) Read(p []byte) (n int, err error)
+  requires gzWF(r)
+  modifies r.err, rdRem, gzFed, gzClosed, elems(p)
+  ensures stays-well-formed: gzWF(r)
+  ensures the-compressed-stream-ends-only-closed-and-complete: err != nil && err == io.EOF ==> gzClosed[ref(r.gw)] && rdRem[ifaceVal(r.r)] == 0 && gzFed[ref(r.gw)] == r.total
+  ensures only-the-pull-error-is-reported: err != nil ==> err == r.err
+  invariant[1] gzWF(r) && err == nil && (ref(p) == old(ref(p)) || fresh(p))
 @*/
